@@ -472,7 +472,7 @@ def check_sim(prop, tier, seed, jobs):
     soak_proc = None
     if prop == "C03":
         # one long-lived process: witness rings across 2^8 .. 2^24 (thorough: 2^32) traces
-        soak_proc = subprocess.Popen([BIN2, "soak", "--max-pow", "32" if thorough and scale >= 1 else "24"], stdout=subprocess.PIPE, stderr=subprocess.DEVNULL)
+        soak_proc = subprocess.Popen([BIN2, "soak", "--max-pow", os.environ.get("VERIF_SOAK_POW") or ("32" if thorough and scale >= 1 else "24")], stdout=subprocess.PIPE, stderr=subprocess.DEVNULL)
         import atexit
         atexit.register(lambda: soak_proc.poll() is None and soak_proc.kill())
     viol, stats, samples, ndist, norders, _ = run_batches(prop, seed, total, thorough, jobs)
@@ -558,6 +558,53 @@ def check_sim(prop, tier, seed, jobs):
             path = os.path.join(REPLAYS, f"C03-{j['shape']}-{j['n']}.json")
             with open(path, "w") as f:
                 json.dump({"property": "C03", "engine": "scale", "kind": kind, "cause": cause, "shape": j["shape"], "n": j["n"], "stack_kb": j.get("stack_kb", 128), "chords": j.get("chords", 0), "selfsame_every": j.get("selfsame_every", 0), "seed": j.get("seed", seed), "expect": {"kind": kind, "cause": cause, "msg": msg}}, f, indent=1)
+            write_evidence(prop, tier, seed, LEVEL.get(prop, "exploration"), coverage, time.time() - t0, 1)
+            print(f"violation kind={kind} cause={cause} msg={msg}")
+            print(f"VIOLATION property={prop} replay={path}")
+            return 1
+    if prop in ("C03", "C04", "C10") and not unlisted:
+        import engines
+        nn, fail = engines.nested_scenarios(prop, tier, seed, jobs)
+        coverage["nested_big_teardown_scenarios"] = nn
+        coverage["nested_big_teardown_note"] = "chains of fully recorded rings (2 to 5000, thorough 40000+ members) where a member's value holds the last outside handle of the next ring, so each collection releases the next from inside a destructor; C03/C10 also: the last outside handle in a thread-local released at thread exit. Judged: exactly-once destruction of everything (C03, C10), every allocation returned (C04), process completes"
+        if fail:
+            a, (kind, cause, msg) = fail
+            os.makedirs(REPLAYS, exist_ok=True)
+            path = os.path.join(REPLAYS, f"{prop}-nested-{'-'.join(a).replace(',', '_').replace('--', '')}.json")
+            with open(path, "w") as f:
+                json.dump({"property": prop, "engine": "nested", "kind": kind, "cause": cause, "args": a, "expect": {"kind": kind, "cause": cause, "msg": msg}}, f, indent=1)
+            write_evidence(prop, tier, seed, LEVEL.get(prop, "exploration"), coverage, time.time() - t0, 1)
+            print(f"violation kind={kind} cause={cause} msg={msg}")
+            print(f"VIOLATION property={prop} replay={path}")
+            return 1
+    if prop in ("C01", "C06") and not unlisted:
+        hp = subprocess.run([BIN2, "huge", "--max-pow", os.environ.get("VERIF_HUGE_POW") or ("34" if thorough else "32")], stdout=subprocess.PIPE, stderr=subprocess.DEVNULL)
+        hj = next((json.loads(l) for l in hp.stdout.decode(errors="replace").splitlines() if l.startswith("{")), None)
+        if hj is None and hp.returncode < 0:
+            # library code running in the child died by a signal (abort, fault): that is a verdict
+            os.makedirs(REPLAYS, exist_ok=True)
+            path = os.path.join(REPLAYS, f"{prop}-huge-crash.json")
+            msg = f"ring a<->b with up to 2^32+3 extra strong handles to a: the process died with signal {-hp.returncode} while handles were counted and released"
+            with open(path, "w") as f:
+                json.dump({"property": prop, "engine": "huge", "kind": "crash", "cause": "huge-strong-count", "max_pow": 32, "expect": {"msg": msg}}, f, indent=1)
+            write_evidence(prop, tier, seed, LEVEL.get(prop, "exploration"), coverage, time.time() - t0, 1)
+            print(f"violation kind=crash cause=huge-strong-count msg={msg}")
+            print(f"VIOLATION property={prop} replay={path}")
+            return 1
+        if hj is None:
+            eprint(f"HARNESS-ERROR {prop}: the huge-count process produced no result (code {hp.returncode})")
+            return 2
+        coverage["huge_handle_counts"] = {"cases": hj["cases"], "note": "fully recorded 2-ring, 2^p + 3 extra strong handles to one member through the raw API (p = 8 .. 32, thorough 34), then the other handles are released: counts exact at every step, nothing destroyed while the extra handles exist"}
+        key = "destroyed_while_held" if prop == "C01" else "count_errors"
+        badc = [c for c in hj["cases"] if c[key]]
+        if badc:
+            c0 = badc[0]
+            os.makedirs(REPLAYS, exist_ok=True)
+            path = os.path.join(REPLAYS, f"{prop}-huge-pow{c0['pow']}.json")
+            kind, cause = ("premature-destruction", "huge-strong-count") if prop == "C01" else ("count-mismatch", "huge-strong-count")
+            msg = f"ring a<->b with 2^{c0['pow']}+3 extra strong handles to a: " + (f"{c0['destroyed_while_held']} observations of a destroyed member while those handles exist" if prop == "C01" else f"{c0['count_errors']} wrong strong counts")
+            with open(path, "w") as f:
+                json.dump({"property": prop, "engine": "huge", "kind": kind, "cause": cause, "max_pow": c0["pow"], "expect": {"msg": msg}}, f, indent=1)
             write_evidence(prop, tier, seed, LEVEL.get(prop, "exploration"), coverage, time.time() - t0, 1)
             print(f"violation kind={kind} cause={cause} msg={msg}")
             print(f"VIOLATION property={prop} replay={path}")
